@@ -271,7 +271,7 @@ def sx_item(it):
     if k == "alias":
         return [S("alias"), at, it["ident"], sx_generics(it["generics"]), sx_type(it["ty"])]
     if k == "const":
-        return [S("const"), at, it["ident"], sx_type(it["ty"]), [sx_lit(l) for l in it["lits"]]]
+        return [S("const"), at, it["ident"], sx_type(it["ty"]), sx_lit(it["init"]) if it["init"] is not None else None]
     if k == "use":
         return [S("use"), sx_use(it["tree"])]
     if k == "mod":
